@@ -36,10 +36,46 @@ let run_seq red (toks : string list) : string =
   match toks with
   | xn :: xd :: rest -> (try pr (go (zs xn, zs xd) rest) with Throw -> "THROW")
   | _ -> "BAD-SEQ"
+(* wrapper call on a store: op "qw:<name>:<pattern>", args = values of the input parameters in declaration order *)
+let run_qw red (name : string) (pat : string) (args : string list) : string =
+  let np = String.length pat in
+  let idx i = z_of_za (ZA.of_int (Char.code pat.[i] - Char.code '0')) in
+  let inpl = List.mem name ["axpyin"; "maxpyin"; "axmyin"; "addin"; "subin"; "mulin"; "divin"] in
+  let st = ref (fun (_ : Model.z) -> ((zs "7", zs "5") : Model.rat)) in
+  let rec fill i = function
+    | n :: d :: rest when i < np -> st := Model.upd !st (idx i) (zs n, zs d); fill (i + 1) rest
+    | _ -> () in
+  fill (if inpl then 0 else 1) args;
+  let s = !st in
+  let p i = idx i in
+  let out (s' : Model.store) = pr (s' (p 0)) in
+  (match name, np with
+   | "add", 3 -> out (Model.exec_add red s (p 0) (p 1) (p 2))
+   | "sub", 3 -> out (Model.exec_sub red s (p 0) (p 1) (p 2))
+   | "mul", 3 -> out (Model.exec_mul red s (p 0) (p 1) (p 2))
+   | "div", 3 -> (match Model.exec_div red s (p 0) (p 1) (p 2) with Some s' -> out s' | None -> "THROW")
+   | "axpy", 4 -> out (Model.exec_axpy red s (p 0) (p 1) (p 2) (p 3))
+   | "maxpy", 4 -> out (Model.exec_maxpy red s (p 0) (p 1) (p 2) (p 3))
+   | "axmy", 4 -> out (Model.exec_axmy red s (p 0) (p 1) (p 2) (p 3))
+   | "axpyin", 3 -> out (Model.exec_axpyin red s (p 0) (p 1) (p 2))
+   | "maxpyin", 3 -> out (Model.exec_maxpyin red s (p 0) (p 1) (p 2))
+   | "axmyin", 3 -> out (Model.exec_axmyin red s (p 0) (p 1) (p 2))
+   | "addin", 2 -> out (Model.exec_addin red s (p 0) (p 1))
+   | "subin", 2 -> out (Model.exec_subin red s (p 0) (p 1))
+   | "mulin", 2 -> out (Model.exec_mulin red s (p 0) (p 1))
+   | "divin", 2 -> (match Model.exec_divin red s (p 0) (p 1) with Some s' -> out s' | None -> "THROW")
+   | "neg", 2 -> out (Model.exec_neg s (p 0) (p 1))
+   | "inv", 2 -> out (Model.exec_inv s (p 0) (p 1))
+   | "assign", 2 -> out (Model.exec_assign s (p 0) (p 1))
+   | _ -> "UNKNOWN-QW-OP")
 let () = run_lines (fun toks ->
   match toks with
   | "skip" :: _ -> "SKIP"
   | "seq" :: reds :: args -> run_seq (reds = "1") args
+  | op :: reds :: args when String.length op > 3 && String.sub op 0 3 = "qw:" ->
+    (match String.split_on_char ':' op with
+     | [_; name; pat] -> run_qw (reds = "1") name pat args
+     | _ -> "BAD-QW")
   | op :: reds :: args ->
     let red = (reds = "1") in
     let a = Array.of_list (List.map zs args) in
@@ -77,6 +113,14 @@ let () = run_lines (fun toks ->
      | "print" -> (match Model.print_den (r 0) with Some d -> pz (fst (r 0)) ^ "/" ^ pz d | None -> pz (fst (r 0)))
      | "string" -> pz (fst (r 0)) ^ "/" ^ pz (snd (r 0))
      | "mod" -> (match Model.rmod (r 0) a.(2) with None -> "THROW" | Some None -> "NOINV" | Some (Some v) -> pz v)
+     | "rt_double" -> (match Model.of_double red (b 0) a.(1) a.(2) with
+                       | Some x -> (match Model.to_double x with Some v -> ZA.format "%016x" (za_of_z v) | None -> "OUT-OF-RANGE")
+                       | None -> "THROW")
+     | "rt_float" -> (match Model.of_double red (b 0) a.(1) a.(2) with
+                       | Some x -> (match Model.to_float x with Some v -> ZA.format "%08x" (za_of_z v) | None -> "OUT-OF-RANGE")
+                       | None -> "THROW")
+     | "to_double" -> (match Model.to_double (r 0) with Some b -> ZA.format "%016x" (za_of_z b) | None -> "OUT-OF-RANGE")
+     | "to_float" -> (match Model.to_float (r 0) with Some b -> ZA.format "%08x" (za_of_z b) | None -> "OUT-OF-RANGE")
      | "trunc" -> pz (Model.trunc (r 0))
      | "floor" -> pz (Model.floor (r 0))
      | "ceil" -> pz (Model.ceil (r 0))
